@@ -73,7 +73,7 @@ def run(ctx):
         events.append({"kind": "law", "name": name, "ppt": rel(a, b), "dB": int(math.ceil(dB))})
         meta.append(("law", name))
 
-    for it in range(200 if T else 60):
+    for it in range(1000 if T else 60):
         fs = setfs(it % 2)
         n = rnd.choice([8, 9, 64, 125, 1024, 31, 2, 3])
         npol = rnd.choice([1, 2])
